@@ -656,7 +656,7 @@ theorem FInv.closed (cfg : Cfg) (tbl : List Nat) (hdur : 0 < cfg.fdtDuration) (N
   fdtAdvance := fun _ _ now hb h _ hs => h.ofFdtAdvance now hb.1.1.1 hb.2.1 hs
   fileStart := fun _ _ _ _ tk _ hb h _ hfn => FInv.ofFileStart tk _ rfl hb.1 h hfn
   pkt := fun _ _ _ _ now _ idx b e _ h _ _ _ _ _ => h.ofPkt now idx b e
-  done := fun _ _ _ _ now _ _ hb h _ hf _ _ _ => h.ofDone now hb.1 hf
+  done := fun _ _ _ _ now _ _ hb h _ hf _ => h.ofDone now hb.1 hf
   fdtPkt := fun _ _ _ _ _ _ _ _ hb h _ hc hf _ he => h.ofFdtPkt hb.1.1.1 hc hf he
   fdtDone := fun _ _ _ _ now _ hb h _ hc hf _ _ => h.ofFdtDone now hb.1.1.1 hc hf
 
